@@ -6,8 +6,8 @@ package main
 
 import (
 	"fmt"
-	"os"
 	"math/rand"
+	"os"
 	"regexp"
 	"sort"
 	"strings"
